@@ -226,7 +226,7 @@ def documented(scan, c):
 
 def sig(rec, clauses):
     comp = rec.get("comp") or rec.get("component")
-    if comp is None and rec.get("k") in ("equiv",):
+    if comp is None and rec.get("k") in ("equiv", "equivb"):
         comp = "%s+%s+%s" % (rec.get("s"), rec.get("c"), rec.get("r"))
     if comp is None:
         comp = rec.get("w") or rec.get("cls") or rec.get("key") or "?"
@@ -243,7 +243,7 @@ def run(c):
               "run-time.  non-trivial = a tree with >= 1 key that did not throw, or a composition case with >= 1 iteration; distinct by content")
     c.mechanism = {"SchemaOK / TakesEffect / RoundTrip / UnknownReported / BadEnumThrows per component": "M+V",
                    "DispatchOK (parse o print = id, every enumerator reaches the same-named type)": "M+V",
-                   "run-time = compile-time (iterations, residual bits, solution and preconditioner digests)": "V (bitwise)",
+                   "run-time = compile-time (iterations, residual bits, solution / preconditioner-action / report-text digests, bytes), scalar and 2x2 block backend": "V (bitwise)",
                    "params::get compiles (deflated_solver, ilut)": "V (compile probe)",
                    "header scan = behaviour": "drift only"}
     c.assumptions = ["value codes: two non-default values per member (one for bool), dyadic so the text round trip is exact",
@@ -279,7 +279,8 @@ def run(c):
 
     def builds():
         specs = [dict(name="c14_params", sources=["record_params.cpp"], flags=[inc, "-DC14_PART_SERIAL"]),
-                 dict(name="c14_rt", sources=["record_equiv_rt.cpp"])]
+                 dict(name="c14_rt", sources=["record_equiv_rt.cpp"]),
+                 dict(name="c14_block", sources=["record_equiv_block.cpp"])]
         for k in range(NPARTS):
             specs.append(dict(name="c14_typed%d" % k, sources=["record_equiv_typed.cpp"], flags=["-DPART=%d" % k, "-DNPARTS=%d" % NPARTS]))
         thunks = [lambda s=s: c.build(**s) for s in specs]
@@ -291,10 +292,10 @@ def run(c):
                                                 flags=[inc, "-DC14_PART_SERIAL", "-DC14_PROBE_EXPORT",
                                                        '-DC14_ONLY_ID="%s"' % x["id"], "-DC14_ONLY_TYPE=T_" + x["id"].replace(".", "_")]))
         res = c.parallel(thunks, max_workers=12)
-        state["params"], state["rt"] = res[0], res[1]
-        state["typed"] = res[2:2 + NPARTS]
-        state["mpi"] = res[2 + NPARTS]
-        state["probes"] = list(zip(probes, res[3 + NPARTS:]))
+        state["params"], state["rt"], state["block"] = res[0], res[1], res[2]
+        state["typed"] = res[3:3 + NPARTS]
+        state["mpi"] = res[3 + NPARTS]
+        state["probes"] = list(zip(probes, res[4 + NPARTS:]))
 
     c.parallel([models, builds])
 
@@ -382,6 +383,8 @@ def run(c):
                 continue
             else:
                 lines.append(ln)
+        out = c.record(state["block"], [], out=c.path("block-%d.ndjson" % so), env=env2, sig={"component": "block"})
+        lines += [ln for ln in open(out).read().splitlines() if ln.strip() and '"e":"End"' not in ln]
         for key in sorted(set(typed) | set(rt)):
             t, r = typed.get(key), rt.get(key)
             if t is None or r is None:
@@ -406,9 +409,11 @@ def run(c):
         kinds[r.get("k", "e")] = kinds.get(r.get("k", "e"), 0) + 1
         if r.get("k") == "tree" and not r["threw"] and (r["t"]["v"] or r["t"]["c"]):
             c.nontrivial.add(hashlib.sha1((r["comp"] + json.dumps(r["t"], sort_keys=True)).encode()).hexdigest()[:12])
+        elif r.get("k") in ("equivb", "equivp") and r["it_t"] >= 0 and not r["threw_t"]:
+            c.nontrivial.add((r["k"], r.get("c") or r.get("cls"), r.get("what") or r.get("nullspace"), r["mat"], r["px_lo_t"]))
         elif r.get("k") == "equiv" and r["it"] > 0:
             c.nontrivial.add(("equiv", r["idx"], r["mat"], r["cfg"], r.get("seed"), r["x_lo"]))
-    for want in ("tree", "schema", "equiv", "enum", "badtype", "unkrt", "equivp", "array"):
+    for want in ("tree", "schema", "equiv", "enum", "badtype", "unkrt", "equivp", "equivb", "array"):
         if not kinds.get(want):
             raise vcheck.InfraError("no '%s' records were produced" % want)
     if kinds.get("equiv", 0) != scan_ntriples() * (4 if th else 2) * 2 * nseeds:
